@@ -8,13 +8,18 @@
   rendered yields an error and writes no bytes at all.
 
   Model: Model.RowPrint (row.MarshalJSON, value.MarshalJSON, json.Marshal over the Dyn
-  universe), Model.Template.exportLine (exporter.Export).  Validity is judged by the reader's
-  own recogniser `Json.accepts`, which C16 relates to the RFC 8259 grammar.
+  universe), Model.Template.exportLine (exporter.Export).  Validity is stated with the
+  reader's recogniser `Json.accepts`, which C16 relates to the RFC 8259 grammar.
+
+  Stdlib parameter: json.Marshal's spelling of floats (`Ext.jsonFloat`) — assumed to be a
+  valid JSON number (`FloatTextOK`, encoding/json's contract); everything else is proved,
+  including the quote lemma for every byte string (Proofs.JsonQuote.strBody_quoteBody).
 -/
 import Model.Template
+import Proofs.JsonPrint
 
 namespace Jl.C01
-open Jl Jl.Value Jl.Template
+open Jl Jl.Value Jl.Template Jl.JsonPrint
 
 /-- One write or nothing: `Export` hands the writer exactly `marshalled row ++ "\n"` in a
     single write when the row renders, and nothing at all when any step fails. -/
@@ -40,5 +45,36 @@ theorem one_write_or_nothing (env : Env) (t : Tmpl) (v : Dyn) (w : Bytes) (e : O
 theorem hidden_not_marshalled (env : Env) (k : Bytes) (raw : Dyn) (typ : Ty) (ms : Members) :
     RowPrint.marshalMembers env (.cons k (.cell raw .hidden typ) ms) = RowPrint.marshalMembers env ms := by
   simp [RowPrint.marshalMembers, Cells.format]
+
+/-- C01, validity: every row that marshals — any nesting, any key and value bytes (controls,
+    quotes, backslashes, U+2028/2029, ill-formed UTF-8), any template, any Go raw value of the
+    model's universe — is accepted by the reader as exactly one JSON object and contains no
+    newline byte. -/
+theorem every_marshalled_row_is_one_valid_object (env : Env) (h : FloatTextOK env.ext)
+    (ms : Members) (bs : Bytes) (hb : RowPrint.marshalRow env ms = .ok bs) :
+    Json.accepts bs = true ∧ (0x0A : UInt8) ∉ bs :=
+  marshalRow_valid env h ms bs hb
+
+/-- C01 for `exporter.Export` (every input kind of CreateRow, every template): what reaches
+    the writer is one accepted object text, then exactly one newline, which is the last byte. -/
+theorem exported_line_valid (env : Env) (h : FloatTextOK env.ext) (t : Tmpl) (v : Dyn) (w : Bytes)
+    (hw : exportLine env t v = .ok (w, none)) :
+    (∃ bs, w = bs ++ [0x0A] ∧ Json.accepts bs = true ∧ (0x0A : UInt8) ∉ bs) ∧
+    w.count 0x0A = 1 ∧ w.getLast? = some 0x0A :=
+  ⟨exportLine_valid env h t v w hw, exportLine_one_newline env h t v w hw⟩
+
+/-- C01 for a line through jl (importer then exporter), and nothing is written on error. -/
+theorem jl_line_valid_or_nothing (env : Env) (h : FloatTextOK env.ext) (ti to : Tmpl) (line w : Bytes) :
+    (jlLine env ti to line = .ok (w, none) →
+      ∃ bs, w = bs ++ [0x0A] ∧ Json.accepts bs = true ∧ (0x0A : UInt8) ∉ bs) ∧
+    (∀ e, jlLine env ti to line = .ok (w, some e) → w = []) :=
+  ⟨jlLine_valid env h ti to line w, fun e => jlLine_error env ti to line w e⟩
+
+/-- The quote lemma behind it: the encoder's output for ANY byte string is read back by the
+    string scanner as one string token (the sanitised string), leaving exactly the rest. -/
+theorem quote_is_one_string_token (s rest : Bytes) :
+    Json.scanScalar (JsonWrite.quote s ++ rest) = some (.str (JsonQuote.sanitize s), rest) ∧
+    ∀ b ∈ JsonWrite.quote s, 0x20 ≤ b :=
+  ⟨JsonQuote.scanScalar_quote s rest, JsonQuote.quote_ge s⟩
 
 end Jl.C01
